@@ -69,6 +69,7 @@ PySupported(d) ==
 CxxSupported(d) ==
   /\ CommonSupported(d)
   /\ \A i \in 1..Len(d.decls) : d.decls[i].kind # "custom"
+  /\ \A i \in 1..Len(d.decls) : d.decls[i].kind = "struct" => d.decls[i].parent = ""   \* derived structs: not exercised
   /\ AllFieldsSat(d, LAMBDA decl, j, f : f.kind # "elementsize")
 
 (* Java: no optional, padding, element-size, custom fields *)
